@@ -455,7 +455,56 @@ def install_election(ex):
             ex.col.add('PRE', ['C06', 'C02'], caller, 'weight@%d:loss' % k,
                        'the new value falls short of old x surplus / tally by less than one unit per truncation (two truncations)',
                        asm, old * surplus - new * tally < tally + SCALE)
+        info = st.ghost.get('ledger_sweep')
+        if ledger_on(ex) and info is not None and info[0].eq(hc.t):
+            # the same bound in the terms of the sweep's ledger invariant, and multiplied by the number of ballot papers the
+            # line stands for (a lemma of its own over two premises: the solver is not asked to find the product in a large context)
+            _hc, v_, s_ = info[:3]
+            mraw = z3.Select(C.heap_array(st, BALLOT, 'multiplier', 'val'), ov.t)
+            m = z3.ToReal(whole_of_r(mraw)) if ex.instance == 'real' else whole_of(mraw)
+            rel = (lambda a, b: a == b) if ex.instance == 'real' else (lambda a, b: a <= b)
+            l1 = rel(new * v_, old * s_)
+            l3 = m >= 1
+            l2 = rel(new * v_ * m, old * s_ * m)
+            ex.col.add('PRE', ['C02', 'C06'], caller, 'weight@%d:never-up:ledger-terms' % k,
+                       'the new ballot value x tally of the elected candidate is at most (exactly, under exact arithmetic) old value x surplus',
+                       asm, l1)
+            ex.col.add('PRE', ['C02'], caller, 'weight@%d:papers' % k, 'a ballot line stands for at least one ballot paper', asm, l3)
+            ex.col.add('PRE', ['C02'], caller, 'weight@%d:never-up:line-value' % k,
+                       'the bound carries over to the value of the whole ballot line (x number of papers)', [l1, l3], l2)
+            st.assume(l1)
+            st.assume(l2)
     ex.hooks['pre_store'] = pre_store
+
+    def post_contract(info, env, result, pre, st):
+        """inside a surplus sweep, after transfer(b): how the two sides of the sweep's ledger invariant moved, as products already
+        multiplied out (each identity is an obligation over one premise; the solver then only adds up)"""
+        sw = st.ghost.get('ledger_sweep')
+        if not ledger_on(ex) or sw is None or info.name != 'transfer' or 'ballot' not in env or getattr(ex, 'muted', 0):
+            return
+        caller = ex.cur_func.qualname if ex.cur_func is not None else ''
+        hc, v, s_, T0, G0h, Th, Gh, Wh = sw
+        b = env['ballot'].t
+        mraw = z3.Select(C.heap_array(st, BALLOT, 'multiplier', 'val'), b)
+        real = ex.instance == 'real'
+        m = z3.ToReal(whole_of_r(mraw)) if real else whole_of(mraw)
+        new = z3.Select(C.heap_array(st, BALLOT, 'weight', 'val'), b)
+        old = z3.Select(Wh, b)
+        T1, G1h = ledger_T(st), z3.Select(ledger_G(st), hc)
+        e1 = T1 == Th + new * m
+        e2 = G1h == Gh - old * m
+        id1 = (T1 - T0) * v == (Th - T0) * v + new * m * v
+        id2 = (G0h - G1h) * s_ == (G0h - Gh) * s_ + old * m * s_
+        asm = C.assumptions(st)
+        k = C.site_anchor_n(caller, 'ledger-step', 0)
+        add = lambda tag, desc, a, g: ex.col.add('PRE', ['C02'], caller, 'ledger-step@%d:%s' % (k, tag), desc, a, g)   # noqa
+        add('credited', 'in a surplus sweep the total credited grows by the new value of the ballot line', asm, e1)
+        add('left-pile', 'in a surplus sweep the elected candidate\'s pile shrinks by the old value of the ballot line', asm, e2)
+        add('credited-x-tally', 'the same, multiplied by the tally (polynomial identity)', [e1], id1)
+        add('left-pile-x-surplus', 'the same, multiplied by the surplus (polynomial identity)', [e2], id2)
+        for f in (e1, e2, id1, id2):
+            st.assume(f)
+    ex.hooks['post_contract'] = post_contract
 
     RULE_HOOKS = ('droop.rules.electionrule.ElectionRule.action', 'droop.rules.electionmethods.MethodWIGM.action',
                   'droop.rules.electionmethods.MethodMeek.action', 'droop.rules.qpq.Rule.action')
@@ -801,7 +850,9 @@ def install_election(ex):
                      lambda st, it: ledger_T(st) == T0 + tsum(it)),
                     ('[C02,C06] ledger: each tally grew by the value of the visited ballots standing with that candidate',
                      lambda st, it: z3.ForAll([c], z3.Select(C.heap_array(st, CAND, 'vote', 'val'), c) ==
-                                              z3.Select(varr0, c) + psum(c, it)))]
+                                              z3.Select(varr0, c) + psum(c, it))),
+                    ('[C02] ledger: no tally decreases while the ballots are credited',
+                     lambda st, it: z3.ForAll([c], z3.Select(C.heap_array(st, CAND, 'vote', 'val'), c) >= z3.Select(varr0, c)))]
             return invs, ax
         # sweep over the ballots standing with candidate X
         outs = ex.ev(sw[1], pre.fork(), fr)
@@ -813,7 +864,13 @@ def install_election(ex):
         sname = z3.Const(fresh_name('surplus'), vs)
         b = z3.Int('b!led')
 
+        reweights = (BALLOT, 'weight') in W.heap
+
         def ax(st, it):
+            if reweights:
+                # the re-weighting sites of the body state their bounds in these terms (head values of the ledger included)
+                st.ghost['ledger_sweep'] = (hc, v, sname, T0, z3.Select(G0, hc), ledger_T(st), z3.Select(ledger_G(st), hc),
+                                            C.heap_array(st, BALLOT, 'weight', 'val'))
             return [sname == v - q]
         invs = [('[C02,C06] ledger: the other candidates\' tallies move with the value of the ballots standing with them',
                  lambda st, it: z3.ForAll([c], z3.Implies(z3.And(inC(c), c != hc),
@@ -822,6 +879,11 @@ def install_election(ex):
                 ('[C02,C06] ledger: a ballot already visited no longer stands with the candidate being swept',
                  lambda st, it: (lambda va: z3.ForAll([b], z3.Implies(z3.And(isBallot(b), va(b)), top_of(C, st, b) != hc)))(visited_at(it))
                  if visited_at(it) is not None else None)]
+        invs.append(('[C02] ledger: no tally decreases while ballots are transferred',
+                     lambda st, it: z3.ForAll([c], z3.Select(C.heap_array(st, CAND, 'vote', 'val'), c) >= z3.Select(varr0, c))))
+        exh0 = z3.Select(C.heap_array(pre, ELEC, 'exhausted', 'val'), THE_E)
+        invs.append(('[C02] ledger: the non-transferable total does not decrease while ballots are transferred',
+                     lambda st, it: z3.Select(C.heap_array(st, ELEC, 'exhausted', 'val'), THE_E) >= exh0))
         if (BALLOT, 'weight') not in W.heap:
             invs.append(('[C02] ledger: what has been credited is exactly the value that left the swept candidate\'s pile',
                          lambda st, it: ledger_T(st) - T0 == z3.Select(G0, hc) - z3.Select(ledger_G(st), hc)))
